@@ -827,6 +827,33 @@ def check_conversions(rep, g):
         rep.ob('R-DELEG', not notret, g, 'Default::default: every path returns or panics', {'why': [o.why for o in notret][:3]})
         dt = default_term(g)
         if dt is None:
+            # default expression without a value in the model: read the argument off the body (constructor kept
+            # opaque), then compare with the constructor's table on that very argument
+            ctor = g.ctor()
+            arg = None
+            if ctor is not None:
+                ex.no_inline.add(ctor['lid'])
+                try:
+                    for o in ex.paths(fn['lid']):
+                        for t in list(walk(o.ret)) + [x for c, _ in o.conds for x in walk(c)]:
+                            if t[0] == 'call':
+                                cal = ex.callees.get(t[1])
+                                if cal is not None and cal.target_lid() == ctor['lid'] and len(t[2]) == 1:
+                                    arg = t[2][0]
+                finally:
+                    ex.no_inline.discard(ctor['lid'])
+            if arg is not None and not has_param(arg):
+                ct = ctor_table(g, arg)
+
+                def unwrap2(k, c, r):
+                    if hv and k == 'return' and is_ok(r):
+                        return ('return', c, r[4][0])
+                    if hv and k == 'return' and is_err(r):
+                        return ('diverge', c, None)
+                    return (k, c, r)
+                cmp_tables(rep, 'R-DELEG', g, 'Default::default() == constructor(<the declared default expression>), panicking where it rejects',
+                           got, map_table(ct, unwrap2))
+                continue
             # default expression without a Sigma value: compare with the constructor applied to the
             # argument term actually passed (shape only): returned values must be T(..) from ctor paths
             rets = [o for o in outs if o.kind == 'return']
@@ -1670,7 +1697,14 @@ def check_messages(rep, g):
             rep.ob('R-MSG', None, g, f'{what}: the check for this variant was not recognised, nothing to compare with', {})
             continue
         # the bound: an argument whose value is the very bound term of the check
-        bound_named = any(a[1] == chk['bound'] for a in args)
+        def same_value(x, y):
+            if x == y:
+                return True
+            # an untyped literal in the message defaults to i32 / f64 while the check uses the inner type: compare values
+            if x[0] == 'const' and y[0] == 'const' and x[2] is not None and y[2] is not None:
+                return const_value(x) == const_value(y)
+            return False
+        bound_named = any(same_value(a[1], chk['bound']) for a in args)
         if not bound_named and chk['bound'][0] == 'const' and chk['bound'][2] is not None:
             # a literal bound may be rendered into the template text by the compiler
             bv = const_value(chk['bound'])
